@@ -23,8 +23,19 @@ func (m *multiFlag) Set(s string) error { *m = append(*m, s); return nil }
 
 func main() {
 	debug.SetGCPercent(1000)
+	debug.SetMemoryLimit(16 << 30) // soft limit: GC gets more aggressive near it (several checks may run side by side)
 	if len(os.Args) > 1 && os.Args[1] == "check" {
 		os.Exit(checkMain(os.Args[2:]))
+	}
+	if len(os.Args) > 1 && os.Args[1] == "genc12" {
+		src, n, err := genC12("/repo")
+		if err != nil {
+			fmt.Fprintln(os.Stderr, err)
+			os.Exit(2)
+		}
+		fmt.Fprintf(os.Stderr, "%d event types\n", n)
+		os.Stdout.Write(src)
+		return
 	}
 	if len(os.Args) > 1 && os.Args[1] == "genc18" {
 		src, n, err := genC18("/repo", 100000)
